@@ -1,12 +1,12 @@
 SPECIFICATION Spec
 CONSTANTS
-  Config = "t3x"
-  T = 3
+  Config = "render"
+  T = 2
   K = 1
-  Thorough = TRUE
+  Thorough = FALSE
   RenderDepth = 6
   NestedRead = FALSE
-  WriterPreferring = TRUE
+  WriterPreferring = FALSE
   SplitGuards = FALSE
   Threads <- MCThreads
   Cells <- MCCells
@@ -28,6 +28,5 @@ INVARIANTS
 PROPERTIES
   LinearizableStep
   WritesOnlyUnderLock
-POSTCONDITION Emit
+POSTCONDITION NoEmit
 CHECK_DEADLOCK TRUE
-VIEW View
